@@ -44,7 +44,7 @@ CLAIMED = {
          "DESIGN.md §4 C07"),
  "C14": ("exploration",
          "runtime monitor + Go race detector: concurrent SendSyncRequest callers in a -race client child against a scripted fake coordinator whose replies identify the request they answer; verif-tagged accessors for pending futures; goroutine-dump monitor for blocked response delivery",
-         "N in {2..512} concurrent callers under reply permutations, delays across heart-beats, sequential and back-to-back duplicates, drops, unsolicited responses, phase-two requests with colliding ids, late replies (thorough) and a connection reset; each caller must get exactly the response carrying its own name and frame id or a timeout error; after every script a fresh request must complete, no goroutine may be parked in response delivery and (at the end) no message future may remain.",
+         "N in {2..512} concurrent callers under reply permutations, delays across heart-beats, sequential and back-to-back duplicates, drops, unsolicited responses, phase-two requests with colliding ids, late replies (thorough), a connection reset, and requests a session-open listener sends on sessions that have since been lost (refused at once, no future left); each caller must get exactly the response carrying its own name and frame id or a timeout error; after every script a fresh request must complete, no goroutine may be parked in response delivery and (at the end) no message future may remain.",
          "Quiescence is logical (callers returned + round trip). A race report whose conflicting accesses all lie in the message-future code (GettyRemoting / GettyRemotingClient / message future) is a violation of this property (a duplicate that was stored instead of discarded); all other race reports are attributed to C20. The reset scenario assumes getty's reconnect.",
          "DESIGN.md §4 C14"),
  "C15": ("exploration",
@@ -94,17 +94,17 @@ CLAIMED = {
          "DESIGN.md §4 C20"),
  "C16": ("exploration",
          "differential runtime monitor: the same generated statement program runs in one client process through the AT proxy, through the XA proxy and through the bare go-sql-driver against three fake databases with identical content; step results, statement journals, final committed contents and the coordinator's request log are compared",
-         "Programs of queries, DML (literal / bound arguments, duplicate keys, syntax errors, unknown tables), prepared statements, explicit local transactions (default, isolation level, read-only; commit or rollback), pinned connections, multi-statement texts, DDL, locking reads, upserts, INSERT column lists in another order, unsigned 64-bit arguments; a second batch outside global transactions with server-side parameters; mixed programs that use one dedicated connection inside and then outside a global transaction; optionally with the server closing the idle pooled connections in between. Outside a global transaction (AT and XA proxies): identical journal (text, arguments, order), identical results (rows, column names/types, affected, last insert id, error number and text), no coordinator traffic. Inside a committed AT global transaction: identical business statement results, identical committed data, same business statements in the same order.",
-         "DSN as in seata-go's documentation and tests (interpolateParams=true). Metadata lookups and undo_log traffic are excluded from the journal comparison. Three open findings (C16-K1..K3) are reported as KNOWN-FINDING; a program hit by one of them is not judged further. XA inside a global transaction is C17's subject.",
+         "Programs of queries, DML (literal / bound arguments, duplicate keys, syntax errors, unknown tables), prepared statements, explicit local transactions (default, isolation level, read-only; commit or rollback), pinned connections, multi-statement texts, DDL, locking reads, upserts, INSERT column lists in another order, unsigned 64-bit arguments; a second batch outside global transactions with server-side parameters; mixed programs that use one dedicated connection inside and then outside a global transaction (phase two delivered before the global end is answered, as the real coordinator does for XA); optionally with the server closing the idle pooled connections in between, or losing a connection right after it executed a statement (the driver's 'invalid connection': not to be repeated). Outside a global transaction (AT and XA proxies): identical journal (text, arguments, order), identical results (rows, column names/types, affected, last insert id, error number and text), no coordinator traffic. Inside a committed AT global transaction: identical business statement results, identical committed data, same business statements in the same order.",
+         "DSN as in seata-go's documentation and tests (interpolateParams=true). Metadata lookups and undo_log traffic are excluded from the journal comparison. Four open findings (C16-K1..K4) are reported as KNOWN-FINDING; a program hit by one of them is not judged further (K4: once phase two has closed the dedicated connection of a mixed XA program, its remaining statements cannot be compared). XA inside a global transaction is C17's subject.",
          "DESIGN.md §4 C16"),
  "C17": ("fault_enumeration",
          "runtime monitor with fault injection: statements run through the XA proxy inside global transactions against a fake database that implements the MySQL XA state machine; the XA commands of the database journal are grouped by branch identifier and checked against the legal sequence; identifiers, registrations, caller errors, phase-two answers and durable data are related to each other; a second client process that never saw phase one handles phase two for servers >= 8.0.29",
-         "Autocommit statements (also 2..3 of them on one dedicated connection, 8.0.32) and explicit local transactions (1..3 statements), 1..2 branches per global transaction, forced pairs (a phase one that fails at XA END / PREPARE directly followed by a failing statement on the same pooled connection), server versions 5.7.36 / 8.0.32, commit / rollback, phase two on the holder or on another process, and a failure {error, connection lost before / after} at XA START, at the business statement, at XA END, at XA PREPARE, or a refused registration: START < statements < END < PREPARE < exactly one COMMIT or ROLLBACK per identifier; identifier determined by (xid, branch id) and reused by phase two; BranchRegister before XA START; failures before a successful PREPARE reach the caller, end in a rolled-back branch and never in COMMIT; answers match the durable data; nothing dangling.",
+         "Autocommit statements (also 2..3 of them on one dedicated connection, 8.0.32) and explicit local transactions (1..3 statements), 1..2 branches per global transaction, forced pairs (a phase one that fails at XA END / PREPARE directly followed by a failing statement on the same pooled connection), server versions 5.7.36 / 8.0.32, commit / rollback, phase two on the holder or on another process, and a failure {error, connection lost before / after} at XA START, at the business statement, at XA END, at XA PREPARE, or a refused registration (also with a business function that carries on with the next statement on the same dedicated connection): no business statement durable by itself, START < statements < END < PREPARE < exactly one COMMIT or ROLLBACK per identifier; identifier determined by (xid, branch id) and reused by phase two; BranchRegister before XA START; failures before a successful PREPARE reach the caller, end in a rolled-back branch and never in COMMIT; answers match the durable data; nothing dangling.",
          "The fake database follows the MySQL reference manual's XA state table; InnoDB's XA recovery is not modelled. Two branches of one global transaction use different tables. A PREPARE whose reply was lost gets no verdict.",
          "DESIGN.md §4 C17"),
  "C18": ("exploration",
          "runtime monitor: ground-truth matched/changed rows recorded by the fake database for the business command vs. the images in the undo_log row read with an independent JSON reader",
-         "One intercepted statement per case (UPDATE/DELETE with generated WHERE trees incl. parentheses, IN, BETWEEN, ORDER BY/LIMIT and parameters at every position; INSERT 1-4 rows; upserts; pk-changing updates) over five key shapes and both only-care-update-columns settings: changed rows ⊆ image rows ⊆ matched rows, exact field values, required columns present, pk changes rejected, rejected statements leave nothing durable.",
+         "One intercepted statement per case (UPDATE/DELETE with generated WHERE trees incl. parentheses, IN, BETWEEN, ORDER BY/LIMIT and parameters at every position; INSERT 1-4 rows; single- and multi-row upserts incl. NULL in a unique column of the first value group with a later group colliding through that index, update lists assigning key columns; pk-changing updates) over five key shapes and both only-care-update-columns settings: changed rows ⊆ image rows ⊆ matched rows, exact field values, required columns present, pk changes rejected, rejected statements leave nothing durable.",
          "json serializer without compression; minimysql's record of matched/changed rows is the ground truth.",
          "DESIGN.md §4 C18"),
 }
